@@ -621,6 +621,21 @@ func ruleC04SideSwap(c *Ctx) {
 		}
 		c.Check(ok, "c04.matcher-siblings", x.name, c.P.Pos(x.fn.Pos()), "rows and identifiers swapped together iff not a left join; catalogs (left,leftIdent,rightIdent) and (right,rightIdent,leftIdent)", why)
 	}
+	// the third entry: STRAIGHT_JOIN keeps the sides as written (no swap) and builds the same two catalogs
+	// (found by an own probe in round 11: the right catalog built with the identifiers exchanged keys the right rows by
+	// the left side's columns, and `a STRAIGHT_JOIN b ON a.x = b.y` answers the cross product)
+	if s, fs := get("StraightJoin"); s == nil {
+		c.Unknown("c04.matcher-siblings", "(*Join).StraightJoin", "-", "anchor lost")
+	} else {
+		ok, why := true, ""
+		want := []string{"left,leftIdent,rightIdent", "right,rightIdent,leftIdent"}
+		if s.swapRows || s.swapIdents {
+			ok, why = false, fmt.Sprintf("a straight join keeps the sides as written: rows swapped=%v, identifiers swapped=%v", s.swapRows, s.swapIdents)
+		} else if !(len(s.catalogs) == 2 && s.catalogs[0] == want[0] && s.catalogs[1] == want[1]) {
+			ok, why = false, "catalogs are built with "+strings.Join(s.catalogs, " | ")+" (want "+strings.Join(want, " | ")+")"
+		}
+		c.Check(ok, "c04.matcher-siblings", "(*Join).StraightJoin", c.P.Pos(fs.Pos()), "no side swap; catalogs (left,leftIdent,rightIdent) and (right,rightIdent,leftIdent)", why)
+	}
 }
 
 // ruleC04KeyEncoding: per key column one value text and one separator.
